@@ -3,7 +3,7 @@ from common import *  # noqa
 import lexcommon
 
 PID = "C15"
-KINDS = {"trim", "ws", "spaceless"}
+KINDS = {"trim", "ws", "spaceless", "ctl"}
 
 
 def check(tier):
@@ -15,6 +15,9 @@ def check(tier):
     n += lexcommon.lex_replay(rep, pvh, ["MC_PongoLexer_code_q.cfg"], KINDS)
     import filtercommon
     filtercommon.filter_replay(rep, pvh, ["spaceless"], None if q else {"spaceless": 7})
+    # spaceless as a construct among constructs (PongoRender): nested in, around and next to blocks that capture their body
+    import rendercommon
+    rendercommon.render_replay(rep, pvh, "MC_RenderC12", ["MC_RenderC12_sp.cfg"])
     rep.cov["traces_validated_against_impl"] += n
     rep.assumptions += ["comments and verbatim blocks are kept away from trimming constructs (the statement does not settle those placements)"]
     return rep.finish(
